@@ -50,13 +50,13 @@ def UnrecordedTaskPod (jo : JobObj) (rj : Job) (p : PodObj) : Prop :=
 live GET) and the pod cache holds no unrecorded task of the Job -/
 theorem finalizerTasks_nil_iff (s : Sys) (jo : JobObj) (rj : Job) :
     finalizerTasks s jo rj = [] ↔
-      tasksForRefsConfirmed s rj.status.tasks = [] ∧
+      tasksForRefsConfirmed s jo rj.status.tasks = [] ∧
       ∀ p ∈ s.podCache, UnrecordedTaskPod jo rj p → podTask p = none := by
   constructor
   · intro h
     have hall : ∀ t, ¬ t ∈ finalizerTasks s jo rj := by rw [h]; simp
-    have hc : tasksForRefsConfirmed s rj.status.tasks = [] := by
-      cases hx : tasksForRefsConfirmed s rj.status.tasks with
+    have hc : tasksForRefsConfirmed s jo rj.status.tasks = [] := by
+      cases hx : tasksForRefsConfirmed s jo rj.status.tasks with
       | nil => rfl
       | cons t rest =>
         exact absurd ((Furiko.JobCtlPlan.mem_finalizerTasks s jo rj t).mpr (Or.inl (by rw [hx]; simp))) (hall t)
@@ -82,7 +82,7 @@ server — AND (repair of F-C20-1) the pod cache holds no unrecorded task of the
 with and controlled by the Job that the status does not list. -/
 theorem finalizer_removed_only_when_gone (s : Sys) (jo : JobObj) (rj : Job) (s' : Sys) (rj' : Job)
     (h : handleFinalizer s jo rj true = (s', some (rj', false))) :
-    rj.deletionTimestamp.isSome = true ∧ tasksForRefsConfirmed s rj.status.tasks = [] ∧
+    rj.deletionTimestamp.isSome = true ∧ tasksForRefsConfirmed s jo rj.status.tasks = [] ∧
     (∀ p ∈ s.podCache, UnrecordedTaskPod jo rj p → podTask p = none) ∧
     finalizerTasks s jo rj = [] := by
   unfold handleFinalizer at h
@@ -101,10 +101,12 @@ theorem finalizer_removed_only_when_gone (s : Sys) (jo : JobObj) (rj : Job) (s' 
 
 /-- … which means that no task listed in the status exists on the server any more: the Job
 object can only disappear (its last finalizer dropped) after its tasks are gone — whatever the
-pod cache holds or lacks. -/
-theorem confirmed_empty_means_gone (s : Sys) (refs : List TaskRef)
-    (h : tasksForRefsConfirmed s refs = []) :
-    ∀ r ∈ refs, liveGetTask s r.name = none := by
+pod cache holds or lacks.  (`liveGetTask s jo n = none`: the server holds no pod named `n` that is
+controlled by the Job and is a task — since the repair of F22 an object of that name that is not
+controlled by the Job is not the task.) -/
+theorem confirmed_empty_means_gone (s : Sys) (jo : JobObj) (refs : List TaskRef)
+    (h : tasksForRefsConfirmed s jo refs = []) :
+    ∀ r ∈ refs, liveGetTask s jo r.name = none := by
   intro r hr
   unfold tasksForRefsConfirmed at h
   rw [List.filterMap_eq_nil_iff] at h
@@ -114,18 +116,74 @@ theorem confirmed_empty_means_gone (s : Sys) (refs : List TaskRef)
   · cases this
   · exact this
 
-/-- When the finalizer is dropped, every task listed in the status is gone from the server, and
-no unrecorded task of the Job (created, recording failed) is visible in the pod cache. -/
+/-- When the finalizer is dropped, no pod CONTROLLED BY THE JOB that carries the name of a task
+listed in the status exists on the server any more, and no unrecorded task of the Job (created,
+recording failed) is visible in the pod cache. -/
 theorem job_gone_implies_tasks_gone (s : Sys) (jo : JobObj) (rj : Job) (s' : Sys) (rj' : Job)
     (h : handleFinalizer s jo rj true = (s', some (rj', false))) :
-    (∀ r ∈ rj.status.tasks, ∀ p, findPod s.pods r.name = some p → podTask p = none) ∧
+    (∀ r ∈ rj.status.tasks, ∀ p, findPod s.pods r.name = some p → p.ownerUid = some jo.uid → podTask p = none) ∧
     (∀ p ∈ s.podCache, UnrecordedTaskPod jo rj p → podTask p = none) := by
   refine ⟨?_, (finalizer_removed_only_when_gone s jo rj s' rj' h).2.2.1⟩
-  intro r hr p hp
-  have := confirmed_empty_means_gone s _ (finalizer_removed_only_when_gone s jo rj s' rj' h).2.1 r hr
-  unfold liveGetTask at this
+  intro r hr p hp hown
+  have := confirmed_empty_means_gone s jo _ (finalizer_removed_only_when_gone s jo rj s' rj' h).2.1 r hr
+  unfold liveGetTask isControlledByJob at this
   rw [hp] at this
-  exact this
+  simpa [hown] using this
+
+/-- F22, the finalizer: an object that is not controlled by the Job does not keep the finalizer,
+whatever name it carries.  If every pod of the pod cache and of the server that carries the name of
+a listed task is NOT controlled by the Job (the tasks themselves are gone; something else took their
+names) and the pod cache holds no unrecorded task of the Job, the finalizer is dropped — and no call
+is issued: the foreign pods are not deleted. -/
+theorem foreign_pod_does_not_block_finalizer (s : Sys) (jo : JobObj) (rj : Job)
+    (hdel : rj.deletionTimestamp.isSome = true)
+    (hcache : ∀ r ∈ rj.status.tasks, ∀ p, findPod s.podCache r.name = some p → p.ownerUid ≠ some jo.uid)
+    (hsrv : ∀ r ∈ rj.status.tasks, ∀ p, findPod s.pods r.name = some p → p.ownerUid ≠ some jo.uid)
+    (hun : ∀ p ∈ s.podCache, UnrecordedTaskPod jo rj p → podTask p = none) :
+    (handleFinalizer s jo rj true).2.map (·.2) = some false ∧ (handleFinalizer s jo rj true).1.calls = s.calls := by
+  have hlive : ∀ r ∈ rj.status.tasks, liveGetTask s jo r.name = none := by
+    intro r hr
+    unfold liveGetTask isControlledByJob
+    cases hp : findPod s.pods r.name with
+    | none => rfl
+    | some p => simp [hsrv r hr p hp]
+  have hget : ∀ r ∈ rj.status.tasks, getTaskForRef s jo r = none := by
+    intro r hr
+    unfold getTaskForRef isControlledByJob
+    cases hp : findPod s.podCache r.name with
+    | none => simp only; split
+              · rfl
+              · exact hlive r hr
+    | some p =>
+      simp only [hcache r hr p hp, decide_false, Bool.not_false, ↓reduceIte]
+      split
+      · rfl
+      · exact hlive r hr
+  have hconf : tasksForRefsConfirmed s jo rj.status.tasks = [] := by
+    unfold tasksForRefsConfirmed
+    rw [List.filterMap_eq_nil_iff]
+    intro r hr
+    unfold getTaskForRefConfirmed
+    rw [hget r hr]
+    exact hlive r hr
+  have hnil : finalizerTasks s jo rj = [] := (finalizerTasks_nil_iff s jo rj).mpr ⟨hconf, hun⟩
+  have hdn : rj.deletionTimestamp.isNone = false := by
+    cases hd : rj.deletionTimestamp with
+    | none => rw [hd] at hdel; cases hdel
+    | some _ => rfl
+  unfold handleFinalizer
+  simp only [hdn, Bool.false_eq_true, ↓reduceIte, Bool.not_true, hnil, List.isEmpty_nil]
+  refine ⟨rfl, ?_⟩
+  unfold updateTaskRefStatus syncJobStatusFromTaskRefs
+  split
+  · rfl
+  · split
+    · split
+      · split
+        · rfl
+        · rfl
+      · rfl
+    · rfl
 
 /-- conversely, an unrecorded task of the Job that the pod cache holds keeps the finalizer: the
 step does not return "finalizer dropped" -/
@@ -136,14 +194,15 @@ theorem unrecorded_task_keeps_finalizer (s : Sys) (jo : JobObj) (rj : Job) (p : 
   have := (finalizer_removed_only_when_gone s jo rj s' rj' h).2.2.1 p hp hu
   rw [ht] at this; cases this
 
-/-- … and a task that is listed, not recorded finished, and still exists on the server is
-always found (live GET), so the finalizer stays. -/
-theorem existing_unfinished_task_found (s : Sys) (ref : TaskRef) (p : PodObj) (t : Task)
+/-- … and a task that is listed, not recorded finished, and still exists on the server (a pod of
+that name controlled by the Job) is always found (live GET), so the finalizer stays. -/
+theorem existing_unfinished_task_found (s : Sys) (jo : JobObj) (ref : TaskRef) (p : PodObj) (t : Task)
     (hfin : ref.finishTimestamp = none) (hp : findPod s.pods ref.name = some p)
+    (hown : p.ownerUid = some jo.uid)
     (hc : findPod s.podCache ref.name = none) (ht : podTask p = some t) :
-    getTaskForRef s ref = some t := by
-  unfold getTaskForRef liveGetTask
-  simp [hc, hfin, hp, ht]
+    getTaskForRef s jo ref = some t := by
+  unfold getTaskForRef liveGetTask isControlledByJob
+  simp [hc, hfin, hp, ht, hown]
 
 /-- `unrecorded_task_keeps_finalizer` / `finalizer_removed_only_when_gone`: a Job deleted by the
 user whose status lists nothing while the pod cache holds a pod it created (recording failed):
@@ -159,6 +218,27 @@ example :
     (handleFinalizer s jo rj true).1.calls.map (fun c => (c.verb, c.res, c.name, c.out)) = [("delete", "pods", "job-d-0", "ok")] ∧
     (handleFinalizer { s with pods := [], podCache := [] } jo rj true).2.map (·.2) = some false := by
   refine ⟨⟨rfl, rfl, by intro r hr; cases hr⟩, by decide, by decide, by decide, by decide⟩
+
+/-- `foreign_pod_does_not_block_finalizer` / `job_gone_implies_tasks_gone`: the status lists
+`job-d-0`, whose pod is gone; a pod controlled by another Job carries that name on the server and in
+the pod cache: the finalizer is dropped and nothing is deleted.  With the Job's own pod under that
+name the finalizer stays and the pod is deleted. -/
+example :
+    let f : PodObj := { pod := { name := "job-d-0", creationTimestamp := some 1000000000, phase := .succeeded },
+                        ownerUid := some "other-uid", ownerName := some "other" }
+    let own : PodObj := { pod := { name := "job-d-0", creationTimestamp := some 1000000000, retryIndex := some 0 },
+                          ownerUid := some "u", ownerName := some "job", jobLabel := some "u" }
+    let ref : TaskRef := { name := "job-d-0", creationTimestamp := some 1000000000, retryIndex := 0 }
+    let rj : Job := { template := some {}, deletionTimestamp := some 90000000000,
+                      status := { startTime := some 1000000000, tasks := [ref], createdTasks := 1 } }
+    let jo : JobObj := ⟨"job", "u", rj, true, 1⟩
+    let s : Sys := { clock := 100000000000, d := { hash := "d" }, pods := [f], podCache := [f] }
+    (podTask f).isSome = true ∧
+    (handleFinalizer s jo rj true).2.map (·.2) = some false ∧ (handleFinalizer s jo rj true).1.calls = [] ∧
+    (handleFinalizer { s with pods := [own], podCache := [own] } jo rj true).2.map (·.2) = some true ∧
+    (handleFinalizer { s with pods := [own], podCache := [own] } jo rj true).1.calls.map
+      (fun c => (c.verb, c.res, c.name, c.out)) = [("delete", "pods", "job-d-0", "ok")] := by
+  refine ⟨by decide, by decide, by decide, by decide, by decide⟩
 
 example : ∃ s jo rj, (handleTTL s jo rj).1.calls ≠ s.calls := by
   refine ⟨{ clock := 10000000000, job := some ⟨"job", "u", {}, true, 1⟩ }, ⟨"job", "u", {}, true, 1⟩,
